@@ -54,6 +54,9 @@ type mWorld struct {
 	okRule  func(child int, id string, k int) (bool, string)
 	cntRule func(child int, sub string, k int) uint64
 	apxRule func(child int, sub string, k int) *bool // the "approximate" member of a child's COUNT reply (nil rule: absent)
+	// closeUnknownReq: a REQ that no script knows is refused with CLOSED at once (REQ and COUNT
+	// share the subscription-id namespace; a refusal of the one says nothing about the other)
+	closeUnknownReq bool
 	// per child: client EVENT / COUNT messages read from its inbound channel
 	gotEvents []atomic.Int64
 	gotCounts []atomic.Int64
@@ -111,6 +114,14 @@ func (c *mChild) ServeNostr(ctx context.Context, send chan<- mocrelay.ServerMsg,
 				g := c.w.gens[m]
 				c.w.mu.Unlock()
 				if g == nil {
+					if c.w.closeUnknownReq {
+						sub := m.SubscriptionID
+						wg.Add(1)
+						go func() {
+							defer wg.Done()
+							c.emit(ctx, send, mocrelay.NewServerClosedMsg(sub, "auth-required: ", "this relay does not serve "+sub))
+						}()
+					}
 					continue
 				}
 				mine[g.sub] = g
